@@ -13,7 +13,7 @@ from ..core import guarded
 ID = "C03"
 TECHNIQUE = ("Hypothesis-generated aggregates (N<=5, mult 1/2, couplings, dipoles, permutations, unit contexts, "
              "geometries) against a from-scratch Frenkel model, SI point-dipole formula and permutation invariants")
-LEVEL = ("For generated sets of two-level molecules the state list (elsigs, Nb, band order) is compared with the set of "
+LEVEL = ("For generated sets of two-level molecules (read directly after build() or after the aggregate has been diagonalised / read inside its eigenbasis) the state list (elsigs, Nb, band order) is compared with the set of "
          "all occupation tuples, every Hamiltonian and dipole element with the element predicted from the two "
          "signatures, the same system supplied in other energy units / built under another units context with the "
          "same internal matrix, a relabelled copy through basis-free invariants (sorted spectrum, one- and two-photon "
